@@ -1,0 +1,10 @@
+//go:build verif
+// +build verif
+
+package space
+
+// VerifImpls exposes the three kernel implementations individually (bypassing CPU dispatch).
+// Compiled only with -tags verif.
+func VerifImpls() map[string]SpaceImpl {
+	return map[string]SpaceImpl{"native": nativeSpaceImpl{}, "sse": sseSpaceImpl{}, "avx": avxSpaceImpl{}}
+}
